@@ -6,6 +6,7 @@
 use crate::util::*;
 use crate::Args;
 use re::geom::{vertex, Tri};
+use re::math::color::{rgb, Color3f};
 use re::math::vec::{vec2, Vec2};
 use re::render::clip::{view_frustum, Clip, ClipPlane, ClipVert};
 use serde_json::{json, Value};
@@ -14,17 +15,38 @@ use std::io::Write;
 const B: f64 = 16384.0;
 const AS: f64 = 1024.0;
 
-type CV = ClipVert<Vec2>;
+/// Attribute types the clipper interpolates (each through its own Lerp / Affine impl); two
+/// components are recorded.  Colours may leave [0, 1]: the type documents that they may.
+trait Attr: re::math::Lerp + Clone + PartialEq {
+    fn make(a: f32, b: f32) -> Self;
+    fn xy(&self) -> (f32, f32);
+    fn bits(&self) -> Vec<u32>;
+}
+impl Attr for Vec2 {
+    fn make(a: f32, b: f32) -> Self { vec2(a, b) }
+    fn xy(&self) -> (f32, f32) { (self.x(), self.y()) }
+    fn bits(&self) -> Vec<u32> { self.0.iter().map(|c| c.to_bits()).collect() }
+}
+impl Attr for Color3f {
+    fn make(a: f32, b: f32) -> Self { rgb(a, b, 0.5) }
+    fn xy(&self) -> (f32, f32) { (self.r(), self.g()) }
+    fn bits(&self) -> Vec<u32> { self.0.iter().map(|c| c.to_bits()).collect() }
+}
+impl Attr for (f32, Color3f) {
+    fn make(a: f32, b: f32) -> Self { (a, rgb(0.25, b, a)) }
+    fn xy(&self) -> (f32, f32) { (self.0, self.1.g()) }
+    fn bits(&self) -> Vec<u32> { std::iter::once(self.0.to_bits()).chain(self.1 .0.iter().map(|c| c.to_bits())).collect() }
+}
 
 /// `scale` (a power of two, exact) multiplies all four homogeneous coordinates:
 /// the same projective triangle, so the same clipping in barycentric terms.
-fn mk_tri(t: &Value, a: &Value, scale: f32) -> (Tri<CV>, [[f64; 4]; 3]) {
+fn mk_tri<A: Attr>(t: &Value, a: &Value, scale: f32) -> (Tri<ClipVert<A>>, [[f64; 4]; 3]) {
     let mut vs = vec![];
     let mut raw = [[0f64; 4]; 3];
     for i in 0..3 {
         let c = |j: usize| t[i][j].as_i64().unwrap() as f32 / 4.0;
         raw[i] = [c(0) as f64, c(1) as f64, c(2) as f64, c(3) as f64];
-        let at = vec2(a[i][0].as_i64().unwrap() as f32, a[i][1].as_i64().unwrap() as f32);
+        let at = A::make(a[i][0].as_i64().unwrap() as f32, a[i][1].as_i64().unwrap() as f32);
         vs.push(ClipVert::new(vertex([c(0) * scale, c(1) * scale, c(2) * scale, c(3) * scale].into(), at)));
     }
     (Tri([vs[0].clone(), vs[1].clone(), vs[2].clone()]), raw)
@@ -63,11 +85,11 @@ fn bary(v: &[[f64; 4]; 3], p: [f64; 4]) -> Option<([f64; 3], f64)> {
     Some((b, res))
 }
 
-fn bits(t: &Tri<CV>) -> Vec<u32> {
+fn bits<A: Attr>(t: &Tri<ClipVert<A>>) -> Vec<u32> {
     t.0.iter()
         .flat_map(|v| {
             let mut b: Vec<u32> = v.pos.0.iter().map(|c| c.to_bits()).collect();
-            b.extend(v.attrib.0.iter().map(|c| c.to_bits()));
+            b.extend(v.attrib.bits());
             b
         })
         .collect()
@@ -77,7 +99,7 @@ fn bits(t: &Tri<CV>) -> Vec<u32> {
 /// planes handed over in another order (the intersection of half-spaces does not depend on it).
 const ORDERS: [[usize; 6]; 4] = [[0, 1, 2, 3, 4, 5], [5, 4, 3, 2, 1, 0], [2, 3, 4, 5, 0, 1], [4, 0, 5, 1, 3, 2]];
 
-fn clip_ord(ts: &[Tri<CV>], ord: usize) -> Option<Vec<Tri<CV>>> {
+fn clip_ord<A: Attr>(ts: &[Tri<ClipVert<A>>], ord: usize) -> Option<Vec<Tri<ClipVert<A>>>> {
     guard(|| {
         let mut out = vec![];
         if ord == 0 {
@@ -89,14 +111,20 @@ fn clip_ord(ts: &[Tri<CV>], ord: usize) -> Option<Vec<Tri<CV>>> {
         out
     })
 }
-fn clip(ts: &[Tri<CV>]) -> Option<Vec<Tri<CV>>> {
-    clip_ord(ts, 0)
-}
+
 
 pub fn exec(case: &Value) -> Value {
+    match case.get("at").and_then(|v| v.as_str()).unwrap_or("vec2") {
+        "col3" => exec_a::<Color3f>(case),
+        "tup" => exec_a::<(f32, Color3f)>(case),
+        _ => exec_a::<Vec2>(case),
+    }
+}
+
+fn exec_a<A: Attr>(case: &Value) -> Value {
     let scale = 2f32.powi(case.get("sc").and_then(|v| v.as_i64()).unwrap_or(0) as i32);
     let unscale = 1.0 / scale as f64;
-    let (tri, raw) = mk_tri(&case["t"], &case["a"], scale);
+    let (tri, raw) = mk_tri::<A>(&case["t"], &case["a"], scale);
     let mut e = case.clone();
     let o = e.as_object_mut().unwrap();
     let ord = case.get("po").and_then(|v| v.as_u64()).unwrap_or(0) as usize;
@@ -110,14 +138,14 @@ pub fn exec(case: &Value) -> Value {
     };
     // the same triangle inside a batch: the batch result must be the
     // concatenation of the single results, bit for bit
-    let others: Vec<Tri<CV>> = case["others"]
+    let others: Vec<Tri<ClipVert<A>>> = case["others"]
         .as_array()
         .unwrap()
         .iter()
-        .map(|t| mk_tri(&t["t"], &t["a"], scale).0)
+        .map(|t| mk_tri::<A>(&t["t"], &t["a"], scale).0)
         .collect();
     let pos = (gi(case, "pos") as usize).min(others.len());
-    let mut batch: Vec<Tri<CV>> = others.clone();
+    let mut batch: Vec<Tri<ClipVert<A>>> = others.clone();
     batch.insert(pos, tri.clone());
     let mut expect: Vec<Vec<u32>> = vec![];
     let mut ok_singles = true;
@@ -147,7 +175,7 @@ pub fn exec(case: &Value) -> Value {
                             (b[1] * B).round() as i64,
                             (b[2] * B).round() as i64,
                             (res * B).ceil() as i64,
-                            [(v.attrib.x() as f64 * AS).round() as i64, (v.attrib.y() as f64 * AS).round() as i64]
+                            [(v.attrib.xy().0 as f64 * AS).round() as i64, (v.attrib.xy().1 as f64 * AS).round() as i64]
                         ]),
                         _ => {
                             solvable = false;
@@ -226,6 +254,7 @@ pub fn gen(args: &Args, out: &mut dyn Write) {
         // homogeneous scale 2^sc of the whole call (tiny, ordinary and large coordinates)
         o.insert("sc".into(), json!([0i64, 0, -30, 0, 20, -12][(i % 6) as usize]));
         // which entry point / plane order (every 5th call: the public Clip::clip with reordered planes)
+        o.insert("at".into(), json!(["vec2", "col3", "vec2", "tup"][(i % 4) as usize]));
         o.insert("po".into(), json!(if i % 5 == 4 { 1 + (i / 5) % 3 } else { 0 }));
         writeln!(out, "{c}").unwrap();
     }
